@@ -134,7 +134,7 @@ fn cell_oracle(idx: u64, seed: u64, ev: &mut Ev) -> Outcome {
 }
 
 fn run(r: &Run) {
-    r.prop("adc_cases", r.tier.pick(150_000, 6_000_000), gen::adc_case, case_oracle);
+    r.prop("adc_cases", r.tier.pick(250_000, 10_000_000), gen::adc_case, case_oracle);
     let seed = r.seed;
     let reps = r.tier.pick(1, 20);
     r.enumerate("adc_cells", CELLS * reps, move |i, ev| cell_oracle(i % CELLS, seed.wrapping_add(i / CELLS), ev));
